@@ -40,6 +40,9 @@ pub fn install_panic_hook() {
         } else {
             String::from("?")
         };
+        if std::env::var("YMON_BT").is_ok() {
+            eprintln!("PANIC {} {}\n{}", loc, msg, std::backtrace::Backtrace::force_capture());
+        }
         LAST_PANIC.with(|p| *p.borrow_mut() = format!("{} [{}]", loc, msg.chars().take(160).collect::<String>()));
     }));
 }
@@ -143,6 +146,26 @@ pub fn tag_char(n: u32) -> char {
         _ => 0x20000 + idx,
     };
     char::from_u32(c).unwrap_or('?')
+}
+
+thread_local! {
+    static CAND_PATH: RefCell<String> = RefCell::new(String::new());
+}
+
+/// Where the program about to be executed is noted (so that a process death can be attributed to
+/// the exact program, also while minimising).
+pub fn set_candidate_path(p: &str) {
+    CAND_PATH.with(|c| *c.borrow_mut() = p.to_string());
+}
+
+pub fn note_candidate(workload: &str, prop: &str, program: &serde_json::Value) {
+    CAND_PATH.with(|c| {
+        let p = c.borrow();
+        if !p.is_empty() {
+            let doc = serde_json::json!({"workload": workload, "prop": prop, "program": program, "minimised": {"program": program}});
+            let _ = std::fs::write(&*p, doc.to_string());
+        }
+    });
 }
 
 /// Verbose logs (decoded messages) when YMON_DEBUG is set; used by `replay`.
